@@ -682,7 +682,7 @@ spif_ustr_splice(spif_ustr_t self, spif_ustridx_t idx, spif_ustridx_t cnt, spif_
         ptmp += idx;
     }
     if (!SPIF_OBJ_ISNULL(other)) {
-        memcpy(ptmp, other->s, other->len);
+        memcpy(ptmp, TEXT_OF(other), other->len);
         ptmp += other->len;
     }
     memcpy(ptmp, self->s + idx + cnt, self->len - idx - cnt + 1);
